@@ -13,7 +13,10 @@ import (
 	"gvh/internal/sx"
 )
 
-func init() { campaigns["C14"] = runC14 }
+func init() {
+	campaigns["C14"] = runC14
+	campaigns["consumers"] = runConsumers
+}
 
 type sigWorld struct {
 	pkg, other   *types.Package
@@ -296,7 +299,8 @@ func runC14(e *env) error {
 			e.rep.Sample(map[string]any{"case": descr[i], "answer": impl[i].String()})
 		}
 	}
-	return nil
+	e.rep.Exhaustive = false
+	return runConsumers(e)
 }
 
 func sortCtx(a *sx.Node) {
